@@ -44,7 +44,7 @@ pub fn evals(prop: &str) -> Vec<(&'static str, &'static str)> {
 
 pub fn rule(prop: &str) -> &'static str {
     match prop {
-        "C10" => "fault enumeration: for each well-formed base registry every entry id, every reference site and every field list receives one fault (wrong id / missing id / mixed fields), plus settings without compact / bits path, plus fault-free registries; non-trivial = distinct (registry, settings) with at least one generated item",
+        "C10" => "fault enumeration: for each well-formed base registry every entry id, every reference site and every field list receives one fault (wrong id / missing id / mixed fields), plus settings without compact / bits path, plus fault-free registries, plus the out-of-class stream outside:compact-field (compact fields with tuple / array / unit inner types: panic, model and implementation alike); non-trivial = distinct (registry, settings) with at least one generated item",
         "C06" => "pairs of runs on equal inputs: permuted / repeated builder histories and fresh settings objects; outputs must be token-identical; non-trivial = distinct pair with at least one generated item",
         "C09" => "pairs of settings differing in exactly one switch (root, docs, codec, alloc, compact path, bits path) over the arm-coverage corpus and random programs",
         "C17" => "pairs (registry, consistently renumbered registry) and (registry, retain()-ed sub-registry)",
